@@ -591,6 +591,10 @@ class Builder(object):
 
             self.verifyName(name, command, tokens, index)
 
+            if name in housing.House.Names:
+                msg = "Error building %s. House %s already exists." % (command, name)
+                raise excepting.ParseError(msg, tokens, index)
+
             self.currentHouse = housing.House(name = name) #also creates .store
             self.houses.append(self.currentHouse)
             self.currentStore = self.currentHouse.store
